@@ -1024,6 +1024,9 @@ def evalE : Nat → FE → M MV
       else (match vl with
         | .ref fo => do let v ← constructObj n fo argumentList; pure (.val v)
         | _ => throwErr "TypeError")
+    | .fnCtor f => do                                                                -- builtin_function.go:32 builtinNewFunctionNative
+      let o ← newNodeFunction f globalStash                                              -- :49 … rt.globalStash
+      pure (.val (.ref o))
     | .func name ps vs ds body => do                                                 -- :53 function literal
       let sc ← curScope
       (match name with
@@ -1523,6 +1526,14 @@ end
 def runProgram (n : Nat) (vs : List String) (ds : FDecls) (body : FSs) : R V :=
   (do enterGlobalScope
       deferM (evalProgram n vs ds body false) leaveScope) initSt
+
+/-- two otto.Run calls on one runtime -/
+def runProgram2 (n : Nat) (vs1 : List String) (ds1 : FDecls) (body1 : FSs) (vs2 : List String) (ds2 : FDecls) (body2 : FSs) : R V :=
+  match (do enterGlobalScope
+            deferM (evalProgram n vs1 ds1 body1 false) leaveScope) initSt with
+  | .ok _ σ1 => (do enterGlobalScope
+                    deferM (evalProgram n vs2 ds2 body2 false) leaveScope) σ1
+  | r => r
 
 /-- the reply token of the `fn` stream, as the harness builds it from otto's answer (cmd/c01/impl.go implFn) -/
 def out (r : R V) : String :=
